@@ -12,7 +12,7 @@ from vlib.wire import UNDECODABLE
 PROP = 'C19'
 MANIFEST = dict(
     text="Symbolic check of the real traced/retried wrappers of both clients: 0..3 recording tracers, retry strategy with symbolic attempts (0..2 quick / 0..3 thorough), one symbolic outcome selector per attempt over "
-         "{ok, error response, listed / unlisted transport exception, undecodable body, non-response document, identity mismatch via a symbolic response id, KeyboardInterrupt, CancelledError}; "
+         "{ok, error response, listed / unlisted transport exception, undecodable body, non-response document, identity mismatch via a symbolic response id, KeyboardInterrupt, CancelledError; the transport exception either a fresh object per attempt or one cached object re-raised}; "
          "single / batch / notification, caller-supplied vs default trace context, sync / async. Oracle: per attempt, begin on every tracer in configuration order followed by exactly one of end(response|None) / error(exc) "
          "on every tracer in order with the same context object (the caller's when supplied); the exception reaching the caller is the object raised; #begin == #end + #error.",
     ref='5 C19',
@@ -49,6 +49,9 @@ def obligations(tier):
     for kind, req, term in it.product(('sync', 'async'), ('single', 'batch', 'notif'), TERMINALS):
         obs.append({'h': 'trace', 'kind': kind, 'ntr': 2, 'req': req, 'ctx': 'default', 'term': list(term), 'nmax': 0,
                     'retry': False, '_weight': 2})
+    for kind, req, ntr in it.product(('sync', 'async'), ('single', 'batch', 'notif'), (1, 2)):
+        obs.append({'h': 'trace', 'kind': kind, 'ntr': ntr, 'req': req, 'ctx': 'default', 'term': list(TERMINALS[0]), 'nmax': nmax,
+                    'retry': True, 'sameexc': 1, '_weight': 10})
     return obs
 
 
@@ -106,6 +109,7 @@ def h_trace(ob):
             kw['retry_strategy'] = retry_mod.RetryStrategy(backoff=retry_mod.PeriodicBackoff(attempts=n, interval=0.0),
                                                            codes={2000}, exceptions={TimeoutError})
         kinds = ['exc', 'code'] + ob['term']
+        cached_exc = TimeoutError('cached')
         outcomes = []
         is_batch = ob['req'] == 'batch'
 
@@ -118,7 +122,8 @@ def h_trace(ob):
             o = {'kind': kind}
             outcomes.append(o)
             if kind == 'exc':
-                o['exc'] = TimeoutError(f'a{k}')
+                # 'sameexc': the transport re-raises ONE cached exception object on every failing attempt
+                o['exc'] = cached_exc if ob.get('sameexc') else TimeoutError(f'a{k}')
             elif kind == 'unlisted_exc':
                 o['exc'] = ConnectionError(f'a{k}')
             elif kind == 'kbd':
